@@ -19,12 +19,16 @@ if [ "$REPO" != "/repo" ]; then
   BIN=$VERIF/bin/alt-$sfx
   mkdir -p "$BIN"
 fi
-build() {
-  (cd harness && go build $MODFILE -tags verif -o "$BIN/vcheck" ./cmd/vcheck) || return 1
+# The binary is linked under a private name and moved into place only when it differs from the one already there:
+# checks may run side by side, and a binary that is being executed cannot be rewritten in place.
+build_to() { # <name> [extra go build flags]
+  local name=$1; shift
+  local tmp="$BIN/.$name.$$"
+  (cd harness && go build $MODFILE -tags verif "$@" -o "$tmp" ./cmd/vcheck) || { rm -f "$tmp"; return 1; }
+  if [ -f "$BIN/$name" ] && cmp -s "$tmp" "$BIN/$name"; then rm -f "$tmp"; else mv -f "$tmp" "$BIN/$name"; fi
 }
-build_race() {
-  (cd harness && go build $MODFILE -tags verif -race -o "$BIN/vcheck-race" ./cmd/vcheck) || return 1
-}
+build() { build_to vcheck; }
+build_race() { build_to vcheck-race -race; }
 needs_race() { case "$1" in C11|C17) return 0;; esac; return 1; }
 case "${1:-}" in
   setup)
@@ -43,7 +47,7 @@ case "${1:-}" in
       export VCHECK_RACE_BIN="$BIN/vcheck-race"
     fi
     "$BIN/vcheck" run "$id" "$tier"; rc=$?
-    [ -n "$MODFILE" ] && rm -f harness/go.alt-*.mod harness/go.alt-*.sum
+    [ -n "$MODFILE" ] && rm -f harness/go.alt-$sfx.mod harness/go.alt-$sfx.sum
     exit $rc;;
   *) echo "usage: $0 <Cxx> <quick|thorough> | replay <file> | setup | list"; exit 2;;
 esac
